@@ -2,6 +2,7 @@
 from ..cfront import AnalysisError
 from ..ir import fmt, walk_stmts, walk_expr, stmt_exprs, dotted
 from ..model import calls_in
+from ..symexec import fold_bool, norm_minmax, peval_fields as _peval
 
 
 def _func(m, mod, q):
@@ -27,17 +28,57 @@ def rule_settings_defaults(ctx, m):
     ctx.check(len(calls) == 1 and fmt(calls[0]) == 'settings.set_max_dist(s1, s2)', 'R-FWD', pm.path, 'DTWSettings.for_dtw', 'pruning bound installed',
               'for_dtw must install the Euclidean pruning bound with set_max_dist(s1, s2)', f.line)
     pm, g = _func(m, 'dtaidistance.dtw', 'DTWSettings.split_psi')
-    ok1 = ok2 = ok3 = False
-    names = ('psi_1b', 'psi_1e', 'psi_2b', 'psi_2e')
-    for s in walk_stmts(g.body):
-        if s.k == 'assign' and s.target[0] == 'tuple' and tuple(x[1] for x in s.target[1] if x[0] == 'var') == names and fmt(s.value) == 'self.psi':
-            ok1 = True
-        if s.k == 'return' and s.value[0] == 'tuple' and tuple(x[1] for x in s.value[1] if x[0] == 'var') == names:
-            ok2 = True
-    ints = [s for s in walk_stmts(g.body) if s.k == 'assign' and s.target[0] == 'var' and fmt(s.value) == 'self.psi']
-    ok3 = sorted(s.target[1] for s in ints) == sorted(names)
-    ctx.check(ok1 and ok2 and ok3, 'R-PSI', pm.path, 'DTWSettings.split_psi', 'psi tuple order',
-              'a psi 4-tuple is (begin series1, end series1, begin series2, end series2) and an integer applies to all four', g.line)
+    # decided on the symbolic result, whatever the shape of the code: for an int psi the four returned values are psi itself, for a 4-sequence they
+    # are its elements 0..3 in the order (begin series 1, end series 1, begin series 2, end series 2)
+    from ..symexec import Exec, Env
+    ex = Exec()
+    ex.run(g.body, Env())
+    PSI = ('attr', ('var', 'self'), 'psi')
+
+    def truth(c, case):
+        t = fmt(c).replace('(', '').replace(')', '').replace('[', '').replace(']', '')
+        if t.startswith('type') and t.endswith('is int'):
+            return case == 'int'
+        if t.startswith('type') and ' in ' in t and 'tuple' in t:
+            return case == 'seq'
+        if t.startswith('isinstance') and 'int' in t and 'tuple' not in t:
+            return case == 'int'
+        if t.startswith('isinstance') and 'tuple' in t:
+            return case == 'seq'
+        return None
+
+    def simp(e, case):
+        if isinstance(e, tuple) and e and e[0] == 'cond':
+            tv = truth(e[1], case)
+            if tv is True:
+                return simp(e[2], case)
+            if tv is False:
+                return simp(e[3], case)
+        if isinstance(e, tuple):
+            return tuple(simp(x, case) if isinstance(x, tuple) else x for x in e)
+        return e
+
+    def result(case):
+        outs = []
+        for path, val, st in ex.returns:
+            feasible = True
+            for c in path:
+                neg = False
+                cc = c
+                while cc[0] == 'un' and cc[1] == 'not':
+                    cc, neg = cc[2], not neg
+                tv = truth(cc, case)
+                if tv is not None and (tv != (not neg)):
+                    feasible = False
+            if feasible and val is not None:
+                outs.append(simp(val, case))
+        return outs
+    r_int, r_seq = result('int'), result('seq')
+    ok1 = len(r_int) == 1 and r_int[0] == ('tuple', (PSI, PSI, PSI, PSI))
+    ok2 = len(r_seq) == 1 and r_seq[0] == ('tuple', tuple(('idx', PSI, ('num', k)) for k in range(4)))
+    ctx.check(ok1 and ok2, 'R-PSI', pm.path, 'DTWSettings.split_psi', 'psi tuple order',
+              'a psi 4-tuple is (begin series1, end series1, begin series2, end series2) and an integer applies to all four; symbolic results: int -> %s, sequence -> %s'
+              % ([fmt(x)[:80] for x in r_int], [fmt(x)[:120] for x in r_seq]), g.line)
     pm, init = _func(m, 'dtaidistance.dtw', 'DTWSettings.__init__')
     trip = [s for s in init.body if s.k == 'assign' and s.target[0] == 'tuple' and (dotted(s.value[1]) or '').endswith('inner_dist_fns') if s.value[0] == 'call']
     iv = trip[0].target[1][2] if trip and len(trip[0].target[1]) == 3 else None
@@ -216,18 +257,72 @@ def rule_none_zero_encoding(ctx, m):
                     ctx.check(ok, 'R-TAB', pyx.path, 'DTWSettings.__init__', 'key %s -> field %s = %s' % (key, fld, fmt(v)),
                               "kwargs['%s'] must be stored into the settings field of the same name (psi tuple positions -> psi_1b, psi_1e, psi_2b, psi_2e)" % key, t.line)
     ctx.count('pyx settings stores', n)
-    # C side: 0 means off
-    for nm in ('dtw_distance', 'dtw_distance_ndim', 'dtw_distance_euclidean', 'dtw_distance_ndim_euclidean'):
-        f = m.cfunc(nm)
-        if f is None:
-            raise AnalysisError('anchor vanished: %s' % nm)
-        txt = [fmt(s.cond) for s in walk_stmts(f.body) if s.k == 'if']
-        ok = '(window == 0)' in txt and '(max_step == 0)' in txt and any('max_dist == 0' in t for t in txt) and any('settings.max_length_diff != 0' in t for t in txt)
-        ctx.check(ok, 'R-TAB', f.file, nm, '0 means off', 'window, max_step, max_dist and max_length_diff equal to 0 must switch the option off', f.line)
+    # C side: 0 means off -- decided on the symbolic value each kernel prologue computes, with the option's field set to 0
+    from . import kern as _kern
+    from .. import kernels as _kernels, sym as _sym
+    INFV = ('num', float('inf'))
+    for F in _kern.load_kernels(m):
+        if F.lang != 'c':
+            continue
+        sname = F.amap and sorted(F.amap.settings)[0]
+        msgs = []
+        nobl = 0
+        for fld, extra in (('max_step', ()), ('max_dist', ('use_pruning', 'only_ub'))):
+            atom = ('attr', ('var', sname), fld)
+            locs = [(k, v) for k, v in F.env0.items() if isinstance(v, tuple) and any(x == atom for x in walk_expr(v))]
+            for k, v in locs:
+                nobl += 1
+                r = _peval(v, {(sname, fld): 0, **{(sname, x): 0 for x in extra}})
+                if r != INFV:
+                    msgs.append('with settings->%s == 0 the local `%s` becomes %s, not INFINITY' % (fld, k, fmt(r)[:80]))
+        # window: with W = 0 the column limits of the band must be those of the unconstrained band (W = max(l1, l2))
+        lo_, _prev = _kern._rename_prev(F.lo)
+        for what, got, want in (('upper', F.hi, _kern.canon_hi()), ('lower', _sym.subst(lo_, {'SC': _sym.const(0)}), _kern.canon_lo())):
+            if any(a.endswith('@prev') for a in _sym.atoms(got)):
+                continue
+            nobl += 1
+            res = _sym.equivalent(_sym.subst(got, {'W': _sym.const(0)}), _sym.subst(want, {'W': _sym.tmax(_sym.var('L1'), _sym.var('L2'))}), _kern.BASE_DOM, box=_kern.BOX)
+            if res[0] == 'differ':
+                msgs.append('with settings->window == 0 the %s column limit is not that of the unconstrained band (at %s)' % (what, res[1]))
+            elif res[0] != 'equal':
+                ctx.undecided('R-TAB', '%s window == 0 (%s limit)' % (F.name, what), res[1])
+        atom = ('attr', ('var', sname), 'max_length_diff')
+        rets = [(p_, v) for p_, v in F.early_returns if v == INFV and any(x == atom for c in p_ for x in walk_expr(c))]
+        for p_, v in rets:
+            nobl += 1
+            conds = [fold_bool(_peval(c, {(sname, 'max_length_diff'): 0})) for c in p_]
+            if not any(c == ('bool', False) for c in conds):
+                msgs.append('with settings->max_length_diff == 0 the early `return INFINITY` is still reachable')
+        if not rets:
+            msgs.append('no early return depends on settings->max_length_diff')
+        ctx.check(not msgs and nobl >= 5, 'R-TAB', F.file, F.name, '0 means off',
+                  'window, max_step, max_dist and max_length_diff equal to 0 must switch the option off: %s' % ('; '.join(msgs) or 'only %d of the 5 option obligations found' % nobl), F.outer_line)
+    from .wps import parts_defs
     f = m.cfunc('dtw_wps_parts')
-    txt = [fmt(s.cond) for s in walk_stmts(f.body) if s.k == 'if']
-    ok = '(parts.window == 0)' in txt and '(parts.max_step == 0)' in txt and '(parts.max_dist == 0)' in txt
-    ctx.check(ok, 'R-TAB', f.file, 'dtw_wps_parts', '0 means off', 'window, max_step and max_dist equal to 0 must switch the option off', f.line)
+    pdefs, praw = parts_defs(m)
+    msgs = []
+    for fld in ('max_step', 'max_dist'):
+        v = praw.get(fld)
+        if v is None:
+            raise AnalysisError('anchor vanished: dtw_wps_parts no longer sets parts.%s' % fld)
+        r = _peval(v, {('settings', fld): 0})
+        if r != INFV:
+            msgs.append('with settings->%s == 0 parts.%s becomes %s, not INFINITY' % (fld, fld, fmt(r)[:80]))
+    v = praw.get('window')
+    if v is None:
+        raise AnalysisError('anchor vanished: dtw_wps_parts no longer sets parts.window')
+    r = _peval(v, {('settings', 'window'): 0})
+    try:
+        t = _sym.from_ir(norm_minmax(r), atom=lambda e: {'l1': 'L1', 'l2': 'L2'}.get(e[1]) if e[0] == 'var' else None)
+        big = _sym.tmax(_sym.var('L1'), _sym.var('L2'))
+        res = _sym.equivalent(t, big, [_sym.sub(_sym.var('L1'), _sym.const(1)), _sym.sub(_sym.var('L2'), _sym.const(1))], box={'L1': range(1, 7), 'L2': range(1, 7)})
+    except _sym.Unsupported:
+        res = ('unknown', 'not a linear term')
+    if res[0] == 'differ':
+        msgs.append('with settings->window == 0 parts.window becomes %s, not max(l1, l2) (at %s)' % (fmt(r)[:80], res[1]))
+    elif res[0] != 'equal':
+        ctx.undecided('R-TAB', 'dtw_wps_parts window == 0', res[1])
+    ctx.check(not msgs, 'R-TAB', f.file, 'dtw_wps_parts', '0 means off', 'window, max_step and max_dist equal to 0 must switch the option off: %s' % '; '.join(msgs), f.line)
 
 
 def rule_matrix_conversion(ctx, m):
